@@ -1,7 +1,7 @@
 #!/bin/bash
 # Runs every registered check (default tier quick) on /repo's working tree and prints one line each.
 tier=${1:-quick}
-cd /verif
+cd "$(dirname "$(readlink -f "$0")")"
 fail=0
 for p in $(./check --list); do
   s=$(date +%s)
